@@ -322,6 +322,14 @@ def do_concurrent(ctx, dev):
 
 
 def do_names(ctx, dev):
+    g = ctx.gotest("metrics", ["metrics/x05_names_test.go"], "^TestVerifX05FlushProbe$", timeout=300)
+    if not ctx.need_go_ok(g, "X05 flush probe"):
+        return
+    fp = g.summary
+    if fp["lost"] > 0:
+        ctx.log("lead: the statsd provider loses increments that race with a flush: %d of %d Add(1) calls of 8 goroutines were never reported by the flushes "
+                "(go-kit lv.Space.Observe appends to the series outside the lock Reset takes; statsd_raw and dogstatsd flush every metrics.interval)" % (fp["lost"], fp["added"]))
+    ctx.cover("flush-probe", evaluations=fp["added"], lost=fp["lost"])
     cases = os.path.join(ctx.tmp, "x05.names")
     text = "INIT Init\nNEXT Next\nCONSTANTS CleanEmptyUnderscore = %s\nINVARIANTS Gen DocExample%s\nCHECK_DEADLOCK FALSE\n" % (
         tf(dev["clean_empty"]), "" if dev["clean_empty"] else " InjectiveOnClean")
